@@ -76,6 +76,9 @@ pub enum Op {
         /// requested names the model says the (reloaded) manifest does not have
         #[serde(default)]
         unknown: Vec<String>,
+        /// number of commands the model says complete successfully (-1: no prediction)
+        #[serde(default = "minus_one")]
+        nok: i64,
     },
 }
 
@@ -92,6 +95,9 @@ pub struct Invoke {
     pub k: usize,
     #[serde(default)]
     pub adopt: bool,
+    /// `-d explain` is among the arguments: n2 logs why each step it runs is out of date.
+    #[serde(default)]
+    pub explain: bool,
     #[serde(default = "default_file")]
     pub file: String,
     /// Declared step id (1-based, as string) -> "ok" | "fail" | "intr".
@@ -111,6 +117,10 @@ pub struct Invoke {
     /// outputs of the listed running steps.
     #[serde(default)]
     pub kill: Option<Kill>,
+}
+
+fn minus_one() -> i64 {
+    -1
 }
 
 fn default_file() -> String {
@@ -166,6 +176,10 @@ pub struct StepEff {
     pub selfdisc: String,
     /// Raw depfile text to write instead of one rendered from `reads`.
     pub depfile_text: Option<String>,
+    /// Size of the pieces in which the command's output reaches n2 (0: chosen by the executor).
+    pub chunk: usize,
+    /// When the command fails it removes the directories of its outputs if they are empty.
+    pub cleandir: bool,
 }
 
 pub fn strs(v: &Value) -> Vec<String> {
@@ -197,6 +211,8 @@ pub fn step_effs(g: &Value) -> Vec<StepEff> {
                 keepmain: eff["keepmain"].as_bool().unwrap_or(false),
                 selfdisc: eff["selfdisc"].as_str().unwrap_or("").to_string(),
                 depfile_text: eff["depfile_text"].as_str().map(|s| s.to_string()),
+                chunk: eff["chunk"].as_u64().unwrap_or(0) as usize,
+                cleandir: eff["cleandir"].as_bool().unwrap_or(false),
             });
         }
     }
